@@ -13,12 +13,7 @@
 (***************************************************************************)
 EXTENDS Wire, Bitwise, TLC
 
-(* --- the three pure helpers (bp.py:452-487; getMask/getNbitsToCopy/      *)
-(* smartShift in bitproto.go; BpMinTriple and the mask expressions in      *)
-(* bitproto.c) -- defined once, reused by OpPlan and by C19                *)
-NCopy(i, j, n) == Min3(n - j, 8 - (j % 8), 8 - (i % 8))
-Mask(k, c) == IF k = 0 THEN Pow2(c) - 1 ELSE Pow2(k + c) - Pow2(k)
-SmartShift(b, k) == IF k > 0 THEN b \div Pow2(k) ELSE IF k < 0 THEN b * Pow2(0 - k) ELSE b
+(* NCopy, Mask and SmartShift -- the three pure helpers of the runtimes -- are defined in Wire.tla *)
 
 (* byte number q (0-based) of a leaf source of W raw bits *)
 SrcByte(raw, q) ==
